@@ -28,13 +28,13 @@ Msg(name, fields, oneofs) == [name |-> name, fields |-> fields, oneofs |-> oneof
 Desc(msgs) == [pkg |-> "tp", msgs |-> msgs, deps |-> <<>>]
 
 BaseCfg ==
-  [types |-> <<"Root">>, sort |-> FALSE, separate |-> FALSE, importoverride |-> FALSE, dottedimport |-> FALSE, samename |-> FALSE, extraoverride |-> FALSE,
+  [types |-> <<"Root">>, sort |-> FALSE, separate |-> FALSE, importoverride |-> FALSE, dottedimport |-> FALSE, capsimport |-> FALSE, samename |-> FALSE, extraoverride |-> FALSE,
    exclude |-> <<>>, required |-> <<>>, computed |-> <<>>, sensitive |-> <<>>, nameoverrides |-> <<>>, schematypes |-> <<>>,
    validators |-> <<>>, planmodifiers |-> <<>>, usfu |-> FALSE, injected |-> <<>>,
    timetype |-> TRUE, durationtype |-> TRUE, durationcustom |-> "", customtypes |-> <<>>, suffixes |-> <<>>,
    channel |-> <<>>, alts |-> <<>>, fault |-> ""]
 
-Alt(name, clause, channel, perm, msgs) == [name |-> name, clause |-> clause, channel |-> channel, perm |-> perm, msgs |-> msgs, emptycli |-> FALSE, yamlstyle |-> "", boolstyle |-> ""]
+Alt(name, clause, channel, perm, msgs) == [name |-> name, clause |-> clause, channel |-> channel, perm |-> perm, msgs |-> msgs, emptycli |-> FALSE, yamlstyle |-> "", boolstyle |-> "", cfgfile |-> ""]
 
 \* A shape: one root type of one plugin run.  run names the (d, cfg) pair (shapes of the same run share the
 \* generated package); group / role / gchecks tie runs together for relational clauses evaluated by the
